@@ -28,6 +28,12 @@ def build_clis(c):
     return res
 
 
+def overlays():
+    """In-package hooks every build of the htool harness needs."""
+    from vlib.core import ROOT
+    return {"internal/puregen/gengo/verif_hooks.go": os.path.join(ROOT, "go", "htool", "overlay", "gengo_verif_hooks.go")}
+
+
 def harness_env(c, extra=None):
     e = goenv()
     tmp = os.path.join(c.workdir, "tmp")
